@@ -619,10 +619,121 @@ package memberlist
 //@   ensures others [C11]: forall p *bytes.Buffer :: p != buf ==> buflen(p) == old(buflen(p))
 //@   ensures padded [C11,C12]: buflen(buf) == old(buflen(buf)) + blockSize - (old(buflen(buf)) - ignore) % blockSize
 
-//@ func (*TransmitLimitedQueue).GetBroadcasts(q, overhead, limit)
-//@   trusted   // byte budget of the queue: contract assumed here, its body is the subject of C10
-//@   modular
+// ---------------------------------------------------------------------
+// C10: the transmit-limited queue. The btree is an external dependency: it is modelled (engine/btree.go, trusted) as
+// a finite set of item pointers ordered by btreeLess; inTree(t, p) and treeLen(t) read that model.
+// ---------------------------------------------------------------------
+//@ pure btreeLess(a *limitedBroadcast, b *limitedBroadcast) bool := a.transmits < b.transmits || (a.transmits == b.transmits && (a.msgLen > b.msgLen || (a.msgLen == b.msgLen && a.id > b.id)))
+//@ pure btreeKeyEq(a *limitedBroadcast, b *limitedBroadcast) bool := a.transmits == b.transmits && a.msgLen == b.msgLen && a.id == b.id
+//@ func (*limitedBroadcast).Less(b, than)
+//@   safety [C10]
+//@   requires item: b != nil && typeIs(than, *limitedBroadcast) && unbox(than, *limitedBroadcast) != nil     // the tree only compares its own items and the probes handed to it
+//@   ensures order [C10]: result == btreeLess(b, unbox(than, *limitedBroadcast))
+
+// the length of a broadcast's message (assumption on broadcasts: it does not change while the broadcast is queued)
+//@ pure msgLenOf(b Broadcast) int
+// how often Finished() has run, per broadcast
+//@ ghost $fin intmap
+//@ iface Broadcast.Finished()
+//@   assigns $fin
+//@   ensures once: $fin == upd(old($fin), recv, old($fin)[recv] + 1)
+//@ iface Broadcast.Message()
+//@   assigns fresh elems byte
+//@   ensures stable: len(result) == msgLenOf(recv)      // assumption on broadcasts: the message of a broadcast does not change length
+//@ iface Broadcast.Invalidates(b)
+//@   assigns nothing
+//@ iface NamedBroadcast.Name()
+//@   assigns nothing
+
+// Q-tree: the tree holds initialised items. Q-idx: the name index and the tree agree. Q-ids: ids in the tree are
+// distinct and were issued by the generator (so a fresh id collides with nothing).
+//@ lock TransmitLimitedQueue.mu recv q
+//@   protects TransmitLimitedQueue.tq, TransmitLimitedQueue.tm, TransmitLimitedQueue.idGen, limitedBroadcast.*, map map[string]*limitedBroadcast, BT.items, BT.len
+//@   assume room: q.idGen < 9223372036854775807     // the id generator does not wrap (2^63 broadcasts without the queue ever draining)
+//@   inv Q-tree [C10]: q.tq != nil ==> allocated(q.tq) && treeLen(q.tq) >= 0 && (forall p *limitedBroadcast :: inTree(q.tq, p) ==> allocated(p) && p.b != nil && p.transmits >= 0)
+//@   inv Q-tm [C10]: q.tq == nil ==> (forall n string :: !has(q.tm, n))
+//@   inv Q-idx1 [C10]: q.tq != nil ==> (forall n string :: has(q.tm, n) ==> inTree(q.tq, q.tm[n]) && q.tm[n].name == n && n != "")
+//@   inv Q-idx2 [C10]: q.tq != nil ==> (forall p *limitedBroadcast :: inTree(q.tq, p) && p.name != "" ==> has(q.tm, p.name) && q.tm[p.name] == p)
+//@   inv Q-named [C10]: q.tq != nil ==> (forall p *limitedBroadcast :: inTree(q.tq, p) && p.name != "" ==> implements(p.b, NamedBroadcast))
+//@   inv Q-names [C10]: q.tq != nil ==> (forall p *limitedBroadcast, r *limitedBroadcast :: inTree(q.tq, p) && inTree(q.tq, r) && p != r && p.name != "" ==> p.name != r.name)
+//@   inv Q-gen [C10]: q.idGen >= 0
+//@   inv Q-ids1 [C10]: q.tq != nil ==> (forall p *limitedBroadcast :: inTree(q.tq, p) ==> 1 <= p.id && p.id <= q.idGen)
+//@   inv Q-ids2 [C10]: q.tq != nil ==> (forall p *limitedBroadcast, r *limitedBroadcast :: inTree(q.tq, p) && inTree(q.tq, r) && p != r ==> p.id != r.id)
+
+//@ func (*TransmitLimitedQueue).lenLocked(q)
+//@   safety [C10,C13,C20]
 //@   requires nn: q != nil
+//@   ensures len [C10]: result == ite(q.tq == nil, 0, treeLen(q.tq)) && result >= 0
+//@   ensures empty [C10]: q.tq != nil && result == 0 ==> (forall p *limitedBroadcast :: !inTree(q.tq, p))
+
+//@ func (*TransmitLimitedQueue).NumQueued(q)
+//@   safety [C10,C13,C20]
+//@   monitor TransmitLimitedQueue.mu
+//@   requires nn: q != nil
+
+//@ func (*TransmitLimitedQueue).Prune(q, maxRetain)
+//@   safety [C10,C13,C20]
+//@   monitor TransmitLimitedQueue.mu
+//@   requires nn: q != nil
+//@   at call (*TransmitLimitedQueue).lenLocked #1: set $held := zeromap()
+//@   loop #1 invariant tree [C10]: treeOK(q) && idxOK(q) && idsOK(q) && heldOK(q) && $held == zeromap() && q.tq == old(q.tq) && treeLen(q.tq) <= old(treeLen(q.tq))
+//@   ensures kept [C10]: maxRetain >= 0 ==> ite(q.tq == nil, 0, treeLen(q.tq)) <= ite(old(q.tq) == nil, 0, ite(old(treeLen(q.tq)) > maxRetain, maxRetain, old(treeLen(q.tq))))
+
+//@ func (*TransmitLimitedQueue).Reset(q)
+//@   safety [C10,C13,C20]
+//@   monitor TransmitLimitedQueue.mu
+//@   requires nn: q != nil
+//@   ensures cleared [C10]: q.tq == nil && q.idGen == 0
+
+//@ func (*TransmitLimitedQueue).QueueBroadcast(q, b)
+//@   safety [C10,C13,C20]
+//@   requires nn: q != nil && b != nil
+
+//@ func (*TransmitLimitedQueue).queueBroadcast(q, b, initialTransmits)
+//@   safety [C10,C13,C20]
+//@   monitor TransmitLimitedQueue.mu
+//@   requires nn: q != nil && b != nil && initialTransmits >= 0
+//@   at call (*TransmitLimitedQueue).lazyInit: set $held := zeromap()
+//@   at call (*github.com/google/btree.BTree).Ascend: iter-invariant rm [C10]: forall i int :: 0 <= i && i < len(*cell_remove) ==> inTree(q.tq, (*cell_remove)[i]) && (*cell_remove)[i].name == ""
+//@   at call (*github.com/google/btree.BTree).Ascend: iter-invariant seen [C10]: forall i int :: 0 <= i && i < len(*cell_remove) ==> visited((*cell_remove)[i])
+//@   at call (*github.com/google/btree.BTree).Ascend: iter-invariant distinct [C10]: forall i int, j int :: 0 <= i && i < j && j < len(*cell_remove) ==> (*cell_remove)[i] != (*cell_remove)[j]
+//@   loop #1 invariant todo [C10]: forall i int :: rangeindex < i && i < len(remove) ==> inTree(q.tq, remove[i])
+//@   loop #1 invariant t1 [C10]: treeOK(q)
+//@   loop #1 invariant t2 [C10]: idxOK(q)
+//@   loop #1 invariant t3 [C10]: idsOK(q)
+//@   loop #1 invariant t4 [C10]: $held == zeromap()
+//@   loop #1 invariant t5 [C10]: lb.id == q.idGen && !inTree(q.tq, lb) && q.tm != nil && allocated(lb) && (forall p *limitedBroadcast :: inTree(q.tq, p) ==> p.id < lb.id)
+//@   at call (*TransmitLimitedQueue).addItem: lemma pre-add-tree [C10]: treeOK(q) && $held == zeromap() && q.tm != nil && allocated(lb) && !inTree(q.tq, lb) && lb.b != nil && lb.transmits >= 0 && (lb.name != "" ==> implements(lb.b, NamedBroadcast))
+//@   at call (*TransmitLimitedQueue).addItem: lemma pre-add-idx [C10]: idxOK(q) && (lb.name != "" ==> !has(q.tm, lb.name))
+//@   at call (*TransmitLimitedQueue).addItem: lemma pre-add-ids [C10]: idsOK(q) && lb.id == q.idGen && lb.id >= 1 && (forall p *limitedBroadcast :: inTree(q.tq, p) ==> p.id < lb.id)
+//@   loop #1 invariant rm [C10]: forall i int :: 0 <= i && i < len(remove) ==> allocated(remove[i]) && remove[i].name == ""
+
+// the tree part of the lock invariant, for program points inside an operation
+//@ pure treeOK(q *TransmitLimitedQueue) bool := q.tq != nil && allocated(q.tq) && treeLen(q.tq) >= 0 && (forall p *limitedBroadcast :: inTree(q.tq, p) ==> allocated(p) && p.b != nil && p.transmits >= 0 && (p.name != "" ==> implements(p.b, NamedBroadcast)))
+//@ pure idxOK(q *TransmitLimitedQueue) bool := (forall n string :: has(q.tm, n) ==> inTree(q.tq, q.tm[n]) && q.tm[n].name == n && n != "") && (forall p *limitedBroadcast :: inTree(q.tq, p) && p.name != "" ==> has(q.tm, p.name) && q.tm[p.name] == p)
+// items of the tree and items held out of it (ghost $held) have distinct ids issued by the generator, and distinct names
+//@ ghost $held intmap
+//@ pure mine(q *TransmitLimitedQueue, p *limitedBroadcast) bool := inTree(q.tq, p) || $held[p] == 1
+//@ pure idsOK(q *TransmitLimitedQueue) bool := (forall p *limitedBroadcast :: mine(q, p) ==> 1 <= p.id && p.id <= q.idGen) && (forall p *limitedBroadcast, r *limitedBroadcast :: mine(q, p) && mine(q, r) && p != r ==> p.id != r.id && (p.name != "" ==> p.name != r.name))
+//@ pure heldOK(q *TransmitLimitedQueue) bool := forall p *limitedBroadcast :: $held[p] == 1 ==> allocated(p) && p.b != nil && p.transmits >= 0 && (p.name != "" ==> implements(p.b, NamedBroadcast)) && !inTree(q.tq, p) && (p.name != "" ==> !has(q.tm, p.name))
+
+//@ func (*TransmitLimitedQueue).GetBroadcasts(q, overhead, limit)
+//@   safety [C10,C11,C13,C20]
+//@   modular
+//@   monitor TransmitLimitedQueue.mu
+//@   requires nn: q != nil && q.NumNodes != nil
+//@   at call (*TransmitLimitedQueue).lenLocked: set $held := zeromap()
+//@   loop #1 invariant tree [C10]: treeOK(q) && idxOK(q) && idsOK(q) && heldOK(q)
+//@   loop #1 invariant held [C10]: forall i int :: 0 <= i && i < len(reinsert) ==> $held[reinsert[i]] == 1
+//@   loop #1 invariant used [C10,C11]: bytesUsed == sumlens(toSend, len(toSend)) + overhead * len(toSend)
+//@   loop #1 invariant cap [C10,C11]: (len(toSend) > 0 ==> bytesUsed <= limit) && allocated(toSend)
+//@   at call append #1: lemma-after frame [C10,C11]: len(res) == len(toSend) + 1 && sumlens(res, len(toSend)) == sumlens(toSend, len(toSend)) && len(res[len(toSend)]) == len(msg)
+//@   at call (*github.com/google/btree.BTree).AscendRange: iter-invariant fits [C10,C11]: *keep == nil || (inTree(q.tq, *keep) && msgLenOf((*keep).b) <= *free)
+//@   at call Broadcast.Finished: assert limit-reached [C10]: (*keep).transmits + 1 >= transmitLimit
+//@   at call append #2: assert below-limit [C10]: (*keep).transmits < transmitLimit
+//@   at call append #2: set $held := upd($held, *keep, 1)
+//@   loop #2 invariant back [C10]: treeOK(q) && idxOK(q) && idsOK(q)
+//@   loop #2 invariant held [C10]: forall i int :: 0 <= i && i < len(reinsert) ==> $held[reinsert[i]] == 1 && allocated(reinsert[i]) && reinsert[i].b != nil && reinsert[i].transmits >= 0 && (reinsert[i].name != "" ==> implements(reinsert[i].b, NamedBroadcast))
 //@   ensures budget [C10,C11]: len(result) == 0 || sumlens(result, len(result)) + overhead * len(result) <= limit
 //@   ensures mine [C11]: allocated(result)
 
